@@ -18,7 +18,7 @@ def full_name(h):
     return module_path(h['host'], h['module']) + '::' + h['name']
 
 
-_CHECK_RE = re.compile(r'^Check (\d+): (\S+)\n\t - Status: (\w+)\n\t - Description: "(.*)"\n(?:\t - Location: (.*)\n)?', re.M)
+_CHECK_RE = re.compile(r'^Check (\d+): ([^\n]+)\n\t - Status: (\w+)\n\t - Description: "(.*)"\n(?:\t - Location: (.*)\n)?', re.M)
 
 
 def parse_result_file(text):
